@@ -1,0 +1,12 @@
+//go:build verif
+
+// Contracts for the govc verifier (/verif). This file contains comments only; it is compiled
+// only under the build tag "verif" and contributes no declarations.
+package utility
+
+// encCount(n): the 8-byte big-endian encoding written by binary.Write (trusted; reflection inside).
+//@ smt (declare-fun encCount ((_ BitVec 64)) Bytes)
+//@ func UInt64ToByte
+//@   option trusted
+//@   ensures bytes(result) == @encCount(i) && fresh(result)
+//@   modifies nothing
